@@ -201,4 +201,242 @@ theorem counts (yt yp : List Nat) (_hlen : yt.length = yp.length)
   simp only [getD_zeros, Nat.zero_add] at r1 r2 p1 p2 f1 f2 f3
   exact ⟨r1, r2, p1, p2, f1, f2, f3⟩
 
+/-! ### the scores -/
+
+theorem recall_eq (yt yp : List Nat) (hlen : yt.length = yp.length)
+    (ht : ∀ t ∈ yt, t < nClasses yt) (hp : ∀ p ∈ yp, p < nClasses yt) :
+    recall yt yp = specRecall yt yp := by
+  unfold recall specRecall
+  simp only []
+  congr 1
+  apply List.map_congr_left
+  intro c hc
+  have hc' : c < nClasses yt := by simpa using hc
+  obtain ⟨r1, r2, -⟩ := counts yt yp hlen ht hp c hc'
+  rw [r1, r2]
+
+theorem precision_eq (yt yp : List Nat) (hlen : yt.length = yp.length)
+    (ht : ∀ t ∈ yt, t < nClasses yt) (hp : ∀ p ∈ yp, p < nClasses yt) :
+    precision yt yp = specPrecision yt yp := by
+  unfold precision specPrecision
+  simp only []
+  congr 1
+  apply List.map_congr_left
+  intro c hc
+  have hc' : c < nClasses yt := by simpa using hc
+  obtain ⟨-, -, r1, r2, -⟩ := counts yt yp hlen ht hp c hc'
+  rw [r1, r2]
+
+theorem f1_eq (yt yp : List Nat) (hlen : yt.length = yp.length)
+    (ht : ∀ t ∈ yt, t < nClasses yt) (hp : ∀ p ∈ yp, p < nClasses yt) :
+    f1 yt yp = specF1 yt yp := by
+  unfold f1 specF1
+  simp only []
+  congr 1
+  apply List.map_congr_left
+  intro c hc
+  have hc' : c < nClasses yt := by simpa using hc
+  obtain ⟨-, -, -, -, r1, r2, r3⟩ := counts yt yp hlen ht hp c hc'
+  rw [r1, r2, r3]
+
+theorem f1Class_eq (tp fn fp : Nat) :
+    f1Class tp fn fp = if tp = 0 then 0 else (2 * tp : Nat) / ((2 * tp + fn + fp : Nat) : Rat) := by
+  unfold f1Class
+  by_cases h : tp = 0
+  · simp [h]
+  · simp only [if_neg h]
+    have h1 : (0 : Rat) < (tp : Rat) := by exact_mod_cast Nat.pos_of_ne_zero h
+    have h2 : (0 : Rat) ≤ (fn : Rat) := by exact_mod_cast Nat.zero_le fn
+    have h3 : (0 : Rat) ≤ (fp : Rat) := by exact_mod_cast Nat.zero_le fp
+    push_cast
+    have e1 : (fp : Rat) + tp ≠ 0 := by positivity
+    have e2 : (fn : Rat) + tp ≠ 0 := by positivity
+    have e3 : 2 * (tp : Rat) + fn + fp ≠ 0 := by positivity
+    have e4 : (tp : Rat) ≠ 0 := ne_of_gt h1
+    field_simp
+    ring
+
+/-! ### sums -/
+
+theorem foldl_add (l : List Rat) : ∀ a : Rat, l.foldl (· + ·) a = a + l.sum := by
+  induction l with
+  | nil => intro a; simp
+  | cons x xs ih => intro a; simp [List.foldl_cons, ih, add_assoc]
+
+theorem sumR_eq_sum (l : List Rat) : sumR l = l.sum := by
+  unfold sumR; rw [foldl_add]; simp
+
+theorem sum_indicator (l : List (Nat × Nat)) :
+    ((l.map fun (q : Nat × Nat) => if q.1 = q.2 then (1 : Rat) else 0).sum)
+      = ((cnt l (fun q => q.1 == q.2) : Nat) : Rat) := by
+  induction l with
+  | nil => simp [cnt_nil]
+  | cons q rest ih =>
+    rw [List.map_cons, List.sum_cons, ih, cnt_cons]
+    by_cases h : q.1 = q.2
+    · simp [h]; ring
+    · simp [h]
+
+theorem accuracy_eq (yt yp : List Nat) : accuracy yt yp = specAccuracy yt yp := by
+  unfold accuracy specAccuracy mean
+  rw [sumR_eq_sum, List.length_map]
+  have h := sum_indicator (yt.zip yp)
+  exact congrArg (· / ((yt.zip yp).length : Rat)) h
+
+/-! ### confusion matrix -/
+
+theorem confLoop_spec (n : Nat) : ∀ (pairs : List (Nat × Nat)) (m : List (List Nat)),
+    m.length = n → (∀ i, i < n → (m.getD i []).length = n) → (∀ q ∈ pairs, q.1 < n ∧ q.2 < n) →
+    (confLoop pairs m).length = n ∧
+    (∀ i, i < n → ((confLoop pairs m).getD i []).length = n) ∧
+    ∀ i j, ((confLoop pairs m).getD i []).getD j 0
+        = (m.getD i []).getD j 0 + cnt pairs (fun q => q.1 == i && q.2 == j) := by
+  intro pairs
+  induction pairs with
+  | nil => intro m hm hr _; simp [confLoop, cnt_nil, hm]; exact hr
+  | cons q rest ih =>
+    obtain ⟨t, p⟩ := q
+    intro m hm hr hb
+    have hq := hb (t, p) (by simp)
+    simp only at hq
+    have hb' : ∀ q ∈ rest, q.1 < n ∧ q.2 < n := fun q hq => hb q (by simp [hq])
+    simp only [confLoop, cnt_cons]
+    have hrow : ∀ i, (((m.set t (bump (m.getD t []) p))).getD i [])
+        = if i = t then bump (m.getD t []) p else m.getD i [] :=
+      fun i => getD_set' m t i _ [] (by omega)
+    obtain ⟨i1, i2, i3⟩ := ih (m.set t (bump (m.getD t []) p)) (by simp [hm])
+      (by
+        intro i hi
+        rw [hrow i]
+        by_cases h : i = t
+        · rw [if_pos h, length_bump]; exact hr t hq.1
+        · rw [if_neg h]; exact hr i hi) hb'
+    refine ⟨i1, i2, ?_⟩
+    intro i j
+    rw [i3 i j, hrow i]
+    by_cases h : i = t
+    · subst h
+      rw [if_pos rfl, getD_bump _ p j (by rw [hr i hq.1]; exact hq.2)]
+      by_cases hj : j = p
+      · subst hj; simp; omega
+      · have hj' : ¬ p = j := fun e => hj e.symm
+        simp [hj, hj']
+    · have h' : ¬ t = i := fun e => h e.symm
+      rw [if_neg h]
+      simp [h']
+
+theorem getD_replicate_zeros (n i : Nat) (hi : i < n) :
+    (List.replicate n (zeros n)).getD i [] = zeros n := by
+  simp [List.getD_eq_getElem?_getD, hi]
+
+theorem confusion_eq (yt yp : List Nat) (_hlen : yt.length = yp.length)
+    (ht : ∀ t ∈ yt, t < nClasses yt) (hp : ∀ p ∈ yp, p < nClasses yt) (i j : Nat)
+    (hi : i < nClasses yt) (_hj : j < nClasses yt) :
+    ((confusion yt yp).getD i []).getD j 0 = specConf yt yp i j ∧
+    (confusion yt yp).length = nClasses yt ∧ ((confusion yt yp).getD i []).length = nClasses yt := by
+  unfold confusion
+  simp only []
+  have hb := zip_bound yt yp (nClasses yt) ht hp
+  obtain ⟨c1, c2, c3⟩ := confLoop_spec (nClasses yt) (yt.zip yp)
+    (List.replicate (nClasses yt) (zeros (nClasses yt))) (by simp)
+    (by intro k hk; rw [getD_replicate_zeros _ k hk, length_zeros]) hb
+  refine ⟨?_, c1, c2 i hi⟩
+  rw [c3 i j, getD_replicate_zeros _ i hi, getD_zeros, specConf_eq, Nat.zero_add]
+
+/-! ### regression metrics -/
+
+theorem sum_map_zero {α : Type} (l : List α) (f : α → Rat) (h : ∀ x ∈ l, f x = 0) :
+    (l.map f).sum = 0 := by
+  induction l with
+  | nil => simp
+  | cons x xs ih =>
+    rw [List.map_cons, List.sum_cons, h x (by simp), ih (fun y hy => h y (by simp [hy]))]
+    simp
+
+theorem mem_zip_self (l : List Rat) : ∀ q ∈ l.zip l, q.1 = q.2 := by
+  induction l with
+  | nil => intro q hq; simp at hq
+  | cons x xs ih =>
+    intro q hq
+    simp only [List.zip_cons_cons, List.mem_cons] at hq
+    rcases hq with hq | hq
+    · subst hq; rfl
+    · exact ih q hq
+
+theorem r2_spec (yt yp : List Rat) :
+    (yp = yt → r2 yt yp = 1) ∧
+    ((∀ a ∈ yt, a = mean yt) →
+      r2 yt yp = 1 - sumR ((yt.zip yp).map fun (a, b) => (a - b) * (a - b)) * 10000000000) := by
+  constructor
+  · intro h
+    subst h
+    unfold r2
+    simp only []
+    have : sumR ((yp.zip yp).map fun (a, b) => (a - b) * (a - b)) = 0 := by
+      rw [sumR_eq_sum]
+      apply sum_map_zero
+      intro q hq
+      obtain ⟨a, b⟩ := q
+      have := mem_zip_self yp (a, b) hq
+      simp only at this
+      subst this
+      simp
+    rw [this]
+    simp
+  · intro h
+    unfold r2
+    simp only []
+    have : sumR (yt.map fun a => (a - mean yt) * (a - mean yt)) = 0 := by
+      rw [sumR_eq_sum]
+      apply sum_map_zero
+      intro a ha
+      rw [← h a ha]
+      simp
+    rw [if_pos this]
+    rw [div_div_eq_mul_div, div_one]
+
+theorem sq_sum_spec : ∀ (yt yp : List Rat), yt.length = yp.length →
+    0 ≤ ((yt.zip yp).map fun (q : Rat × Rat) => (q.1 - q.2) * (q.1 - q.2)).sum ∧
+    (((yt.zip yp).map fun (q : Rat × Rat) => (q.1 - q.2) * (q.1 - q.2)).sum = 0 ↔ yp = yt) := by
+  intro yt
+  induction yt with
+  | nil =>
+    intro yp hl
+    have : yp = [] := List.length_eq_zero_iff.mp hl.symm
+    subst this; simp
+  | cons a as ih =>
+    intro yp hl
+    cases yp with
+    | nil => simp at hl
+    | cons b bs =>
+      obtain ⟨h1, h2⟩ := ih bs (by simpa using hl)
+      simp only [List.zip_cons_cons, List.map_cons, List.sum_cons]
+      have hsq : 0 ≤ (a - b) * (a - b) := mul_self_nonneg _
+      refine ⟨add_nonneg hsq h1, ?_⟩
+      rw [add_eq_zero_iff_of_nonneg hsq h1, h2, mul_self_eq_zero, sub_eq_zero]
+      constructor
+      · rintro ⟨e1, e2⟩; rw [e1, e2]
+      · intro e
+        injection e with e1 e2
+        exact ⟨e1.symm, e2⟩
+
+theorem mse_spec (yt yp : List Rat) (hl : yt.length = yp.length) (hne : yt ≠ []) :
+    0 ≤ mse yt yp ∧ (mse yt yp = 0 ↔ yp = yt) := by
+  obtain ⟨h1, h2⟩ := sq_sum_spec yt yp hl
+  have hmse : mse yt yp
+      = ((yt.zip yp).map fun (q : Rat × Rat) => (q.1 - q.2) * (q.1 - q.2)).sum
+        / ((yt.length : Nat) : Rat) := by
+    unfold mse mean
+    rw [sumR_eq_sum, List.length_map, List.length_zip, ← hl, Nat.min_self]
+  have hpos : (0 : Rat) < ((yt.length : Nat) : Rat) := by
+    exact_mod_cast List.length_pos_iff.mpr hne
+  rw [hmse]
+  refine ⟨div_nonneg h1 (le_of_lt hpos), ?_⟩
+  rw [div_eq_zero_iff, h2]
+  constructor
+  · rintro (h | h)
+    · exact h
+    · exact absurd h (ne_of_gt hpos)
+  · intro h; exact Or.inl h
+
 end TFV.Metrics
